@@ -40,6 +40,9 @@ def gen(rng, tier):
     if rng.random() < (0.7 if focus["nested"] else 0.4):
         focus["tight"] = True
     spec = C.maybe_from_json(rng, C.maybe_history(rng, C.forward_spec(rng, tier, focus), 0.3))
+    if rng.random() < 0.1 and len(spec["model"]["wps"]) >= 2:
+        for wp_ in spec["model"]["wps"]:
+            wp_["name"] = "shop"  # workplaces that share a name (only IDs are unique)
     if rng.random() < 0.06:
         spec["cfg"]["error_tol"] = rng.choice([0.01, 0.05, 1e-6])  # (a numerical guard of the work-amount checks, nothing to do with space)
     if spec.get("history") is None and rng.random() < 0.12:
